@@ -246,41 +246,8 @@ impl<'a> IndexSelector<'a> {
 
         let reverse = !sort_key.ascending;
 
-        let pk_col = table_def
-            .columns()
-            .iter()
-            .find(|c| c.has_constraint(&crate::schema::table::Constraint::PrimaryKey));
-
-        if let Some(pk) = pk_col {
-            if pk.name().eq_ignore_ascii_case(col_name) {
-                let table_scan = self
-                    .arena
-                    .alloc(PhysicalOperator::TableScan(PhysicalTableScan {
-                        schema: scan.schema,
-                        table: scan.table,
-                        alias: scan.alias,
-                        post_scan_filter: None,
-                        table_def: Some(table_def),
-                        reverse,
-                    }));
-
-                return match sort.input {
-                    LogicalOperator::Scan(_) => Some(table_scan),
-                    LogicalOperator::Project(proj) => {
-                        let physical_proj =
-                            self.arena
-                                .alloc(PhysicalOperator::ProjectExec(PhysicalProjectExec {
-                                    input: table_scan,
-                                    expressions: proj.expressions,
-                                    aliases: proj.aliases,
-                                }));
-                        Some(physical_proj)
-                    }
-                    _ => None,
-                };
-            }
-        }
-
+        // the table B-tree is keyed by the internal row id (insertion order), not by the PRIMARY KEY value:
+        // a plain table scan is not in primary-key order; the PRIMARY KEY's unique index below is.
         let matching_index = table_def.indexes().iter().find(|idx| {
             if idx.has_expressions() || idx.is_partial() {
                 return false;
